@@ -366,6 +366,58 @@ func c07MapKey(c *Ctx) {
 	if n < 2 {
 		c.undecided("fileNameMap/uses", "expected a lookup and an update of the fresh-name map")
 	}
+	// the map is consulted before a fresh name is searched, and what the search found is remembered: in the function that
+	// uses the map, every fresh-name search lies on the lookup's miss edge, and from the search no use of the name as a
+	// path (and no success) is reachable before the map was updated under this entry's id
+	for _, f := range c.AllFns {
+		usesMap := false
+		eachInstr(f, func(in ssa.Instruction) {
+			if lk, ok := in.(*ssa.Lookup); ok {
+				if _, fld, ok := fieldOf(lk.X); ok && fld == "fileNameMap" {
+					usesMap = true
+				}
+			}
+		})
+		if !usesMap {
+			continue
+		}
+		for _, ci := range callsIn(f, idIs("trzsz.getNewName")) {
+			call, ok := ci.(*ssa.Call)
+			if !ok {
+				continue
+			}
+			miss := false
+			for _, fc := range factsAt(call.Block()) {
+				if e, isE := fc.V.(*ssa.Extract); isE && e.Index == 1 && !fc.Pol {
+					if lk, isL := e.Tuple.(*ssa.Lookup); isL {
+						if _, fld, ok := fieldOf(lk.X); ok && fld == "fileNameMap" {
+							miss = true
+						}
+					}
+				}
+			}
+			c.check(miss, "fileNameMap/search-only-on-miss@"+c.fnName(f), c.ipos(call), "a fresh name is searched only when the entry's id has none yet", "a fresh name is searched although the map may already hold one for this id (sub-entries of one root land under different names)")
+			ev := errorValueOf(call)
+			hit, path := reachFromE(call.Block(), instrIndex(call)+1, func(in ssa.Instruction) bool {
+				if isNilErrReturn(in) {
+					return true
+				}
+				c2, ok := in.(ssa.CallInstruction)
+				return ok && calleeID(c2.Common()) == "path/filepath.Join"
+			}, func(in ssa.Instruction) bool {
+				mu, ok := in.(*ssa.MapUpdate)
+				if !ok {
+					return false
+				}
+				_, fld, okF := fieldOf(mu.Map)
+				return okF && fld == "fileNameMap"
+			}, func(from, to *ssa.BasicBlock) bool {
+				_, nonNil := factNil(edgeFactsTo(from, to), ev)
+				return nonNil
+			})
+			c.check(hit == nil, "fileNameMap/search=>remembered@"+c.fnName(f), c.ipos(call), "the name the search found is stored in the map before it is used", "a freshly searched name can be used without being remembered: the next entry of the same root searches again and gets a different name", c.pathStr(path)...)
+		}
+	}
 	// a failing fresh-name search fails the transfer
 	for _, f := range c.AllFns {
 		for _, ci := range callsIn(f, idIs("trzsz.getNewName")) {
